@@ -1056,6 +1056,12 @@ theorem walk_refines_full (e : Env) (s : St) (lh : Int) (dest : Nat) (prune : Bo
   rw [h3]
   exact foldl_doTx_trefines e lh s.pool s2 _ (h1.of_tables ⟨rfl, rfl, rfl, rfl⟩ ⟨rfl, rfl, rfl, rfl⟩) h2
 
+/-- with an empty pool no block transaction can depend on a pending one -/
+theorem parentMissing_nil_pool (e : Env) (before txs : List Nat) : parentMissing e [] before txs = false := by
+  induction txs generalizing before with
+  | nil => rfl
+  | cons i rest ih => unfold parentMissing; simp [ih]
+
 /-- with an empty pool, a successful `play` (`PlayAndRepost`) is `todoBlock`: the block's transactions admitted one
 after the other on the evolving state -/
 theorem play_eq_todoBlock (e : Env) (s : St) (lh : Int) (b : Block) (hp : s.pool = [])
@@ -1070,7 +1076,8 @@ theorem play_eq_todoBlock (e : Env) (s : St) (lh : Int) (b : Block) (hp : s.pool
     by_cases h2 : blockHasDupInput e b.txs = true
     · simp [h2] at hok
     · simp only [h2, Bool.false_eq_true, ↓reduceIte] at hok ⊢
-      simp only [hp, List.filter_nil, List.length_nil, closure, List.reverse_nil, List.foldl_nil] at hok ⊢
+      simp only [hp, parentMissing_nil_pool, Bool.false_eq_true, ↓reduceIte, List.filter_nil, List.length_nil, closure,
+        List.reverse_nil, List.foldl_nil] at hok ⊢
       cases hr : applyBlockTxs e lh b.prop [] b.txs s with
       | none => simp [hr] at hok
       | some p =>
@@ -1511,21 +1518,21 @@ example :
     Indep t1 t2 ∧ (applyTx (applyTx blkSt t1) t2).total = (applyTx (applyTx blkSt t2) t1).total :=
   ⟨⟨by decide, by decide, by decide, by decide⟩, by decide⟩
 
--- ================================================================== why `play` with a non-empty pool needs a hypothesis
+-- ================================================================== `play` with a non-empty pool: pending parents
 
--- In the model (as in `PlayAndRepost`) the transactions of a block are admitted against the state WITH the pool
--- applied. A block transaction may therefore spend an output of a pending transaction that is not in the block:
--- `play` accepts the block and keeps the pending transaction, but the block cannot be replayed on the canonical state
--- of its parent (a fresh replica refuses it). A future `play_refines` for non-empty pools has to assume that block
--- transactions do not cite pending transactions outside the block. Concretely: node at block 2 of `wkEnv` with
--- transaction 22 pending; block 4 = { 41 }, where 41 spends output (22, 0).
+-- In the code as found (`PlayAndRepost`) the transactions of a block were admitted against the state WITH the pool
+-- applied, so a block transaction could spend an output of a pending transaction that is not in the block: the block was
+-- accepted and the pending transaction kept, although the block cannot be replayed on the canonical state of its parent
+-- (a fresh replica refuses it). Reproduced on the real code and repaired (`processUnconfirmTxs` / `parentMissing`): such a
+-- block is now refused. Concretely: node at block 2 of `wkEnv` with transaction 22 pending; block 4 = { 41 }, where 41
+-- spends output (22, 0).
 private def wkEnv4 : Env := { wkEnv with
   txs := wkEnv.txs ++ [(41, ⟨41, false, [⟨22, 0, "u2", 4, 0, false⟩], [⟨"u9", 4, 0⟩], [], []⟩)],
   blocks := wkEnv.blocks ++ [(4, ⟨4, some 2, 3, [41], "m4"⟩)] }
 
 example :
     let s : St := { applyPool wkEnv4 [22] (canon wkEnv4 wkG 2) with pool := [22] }
-    (play wkEnv4 s 0 (wkEnv4.block 4)).2 = .ok ∧ (play wkEnv4 s 0 (wkEnv4.block 4)).1.pool = [22] ∧
+    (play wkEnv4 s 0 (wkEnv4.block 4)).2 = .utxo ∧ (play wkEnv4 s 0 (wkEnv4.block 4)).1.pool = [22] ∧
     (todoBlock wkEnv4 (canon wkEnv4 wkG 2) 0 (wkEnv4.block 4)).isSome = false := by decide
 
 end XV.C01
